@@ -25,7 +25,9 @@ def dispatch (line : String) : String :=
     match cmd with
     | "ping" => "pong"
     | "es" => Driver.earlyStop args
+    | "esgen" => Driver.earlyStopGen args
     | "sky" => Driver.skyEstimate args
+    | "sky2" => Driver.skyEstimate2 args
     | "ci" => Driver.checkInput args
     | "ri" => Driver.rendererInitCmd args
     | "pm" => Driver.parseMaskCmd args
@@ -33,6 +35,7 @@ def dispatch (line : String) : String :=
     | "rs" => Driver.resultsFate args
     | "wrap" => Driver.wrapCmd args
     | "loss" => Driver.lossCmd args
+    | "lossopt" => Driver.lossOptCmd args
     | "render" => Driver.renderCmd args
     | "triple" => Driver.tripleCmd args
     | "psffft" => Driver.psfFftCmd args
